@@ -105,6 +105,46 @@ def _bound_edges(fn, var_decl, cont, raw_count=None):
     return G.edges_where(fn, lower), G.edges_where(fn, upper)
 
 
+# local subscripts that are not judged here, with the reason
+LOCAL_INDEX_EXEMPT = {
+    ("binary_search_module", "mid"): "midpoint of [begin, end): in range by the bisection invariant, R20.3 decides the shrinking",
+    ("find_module", "mi"): "result of binary_search_module(0, size()) on a non-empty vector (the empty case returns first)",
+}
+
+
+def _counts_up_from_zero(fn, decl):
+    """A local that is only ever set to a non-negative constant or incremented, and whose address never escapes."""
+    seen = False
+    for n in fn.walk():
+        if n.get("k") == "decls":
+            for d in n["d"]:
+                if d.get("d") == decl:
+                    seen = True
+                    if "init" in d:
+                        c = const_int(d["init"])
+                        if c is None or c < 0:
+                            return False
+        refs = [x for x in walk(n) if x.get("k") == "ref" and x.get("d") == decl] if n.get("k") in ("bin", "un", "call", "ctor") else []
+        if not refs:
+            continue
+        if n.get("k") == "bin" and n.get("op", "").endswith("=") and n.get("op") not in ("==", "!=", "<=", ">="):
+            t = strip_casts(peel(n.get("x")))
+            if t is not None and t.get("k") == "ref" and t.get("d") == decl:
+                c = const_int(n.get("y"))
+                if n["op"] not in ("=", "+=") or c is None or c < 0:
+                    return False
+        if n.get("k") == "un" and n.get("op") in ("--", "post--", "&"):
+            t = strip_casts(peel(n.get("e")))
+            if t is not None and t.get("k") == "ref" and t.get("d") == decl:
+                return False
+        if n.get("k") in ("call", "ctor"):
+            for a in n.get("a", []):
+                # bound to a reference parameter: the bare lvalue, no lvalue-to-rvalue conversion around it
+                if a is not None and a.get("k") == "ref" and a.get("d") == decl:
+                    return False
+    return seen
+
+
 def _neutral(db, fn, e):
     """Is a returned expression a defined neutral value?"""
     e0 = peel(e)
@@ -170,7 +210,8 @@ def run(ctx):
         for node, cont, idx in _subscripts(fn):
             ix = strip_casts(idx)
             lr = ix if (ix is not None and ix.get("k") == "ref" and ix.get("dk") in ("param", "local")) else None
-            if lr is None or lr.get("d") not in params:
+            is_local = lr is not None and lr.get("d") not in params
+            if lr is None or (is_local and (fn.name.split("::")[-1], lr["n"]) in LOCAL_INDEX_EXEMPT):
                 if lr is not None or const_int(ix) is None:
                     not_judged.append("%s %s" % (fn.loc(node), show(node)))
                 continue
@@ -181,7 +222,7 @@ def run(ctx):
             cfg = fn.cfg
             loc = cfg.locate(node)
             name = "%s(%s)|%s[%s]" % (fn.name, ",".join(p["t"] for p in fn.params), show(cont), lr["n"])
-            ok_l = loc[0] not in cfg.reachable(cut_edges=lower)
+            ok_l = loc[0] not in cfg.reachable(cut_edges=lower) or (is_local and _counts_up_from_zero(fn, lr["d"]))
             ok_u = loc[0] not in cfg.reachable(cut_edges=upper)
             ctx.ob("R20.1", name + "|lower", ok_l, fn.loc(node), "%s is %sdominated by a test %s >= 0" % (show(node), "" if ok_l else "NOT ", lr["n"]))
             ctx.ob("R20.1", name + "|upper", ok_u, fn.loc(node), "%s is %sdominated by a test %s < size of %s" % (show(node), "" if ok_u else "NOT ", lr["n"], show(cont)))
